@@ -54,8 +54,12 @@ CHECKS = {
              'over enumerated edit histories (bounded); oracle = batch parser',
              'D: _update_positions shifts exactly the leaves from the first copied leaf up to last_leaf, writes only `line`, raises '
              'iff last_leaf is among them; _skip_dedent_error_leaves returns the nearest non-DEDENT leaf (found whenever one exists), '
-             '_ends_with_newline, _get_last_line (exact), _get_previous/_next_leaf_if_indentation; B: every single edit, capped pairs and '
-             'seeded longer histories over base texts: dump, code, parents and used names equal a fresh parse after every step',
+             '_ends_with_newline, _get_last_line (the end marker\'s line when only the end marker follows a statement without NEWLINE), '
+             '_get_previous/_next_leaf_if_indentation; the copy conditions helper by helper: _flows_finished, _func_or_class_has_suite '
+             '(decorated / async wrappers in the grammar\'s nesting), _suite_or_file_input_is_valid, _is_flow_node; the diff branch of '
+             'Grammar.parse (cached module reused only for identical lines, the updated module filed with the new lines); B: every '
+             'single edit, capped pairs and seeded longer histories over 12 base texts (incl. CR line ends, BOM, continuation before end '
+             'of file): dump, code, parents and used names equal a fresh parse after every step',
              'partly applicable: no inductive invariant for the copy conditions within reach; the core is bounded only'),
     'C05': C('4 C05', 'exact table obligations (T) on all grammars + VCs of the recovery cut-back (z3) + bounded conformance monitor against an independent EBNF reading',
              'T: automaton language = rule right-hand side, plan chains, LL(1) facts for all rules/states; D: error recovery cuts the stack '
@@ -119,7 +123,10 @@ CHECKS = {
              'model-free history enumeration with the contract as monitor (bounded), logical clock environment',
              'D: _set_cache_item stores under exactly (grammar, path), GC only removes; load_module serves a memory entry only if '
              'it is the tree of the version at the mtime observed now; _load_from_file_system serves a pickle only if it is not '
-             'older than the source and unpickles to a cache item (assumed contracts of os.path.getmtime/open/pickle.load); B: all '
+             'older than the source and unpickles to a cache item (assumed contracts of os.path.getmtime/open/pickle.load); '
+             'Grammar.parse: whichever branch serves the request the module handed back is the tree of the text read (tv ghost), every '
+             'save files the module with the lines it is the tree of under this grammar\'s hash, and the memory cache keeps that '
+             'invariant (parser / tokenizer / diff parser through assumed contracts stating C01 / C09 / C04); B: all '
              'histories <=3 (quick) over write/touch/parse x3/drop/delete/race x files x grammars x cache dirs + structured 6-step '
              'histories, GC trigger at 600 and 1: tree equals fresh parse of current content',
              'that try_to_save_module establishes the representation invariants is not proved (memory: known finding read-then-stat '
